@@ -85,6 +85,35 @@ fn tlen(td: &TD) -> usize {
     td.task.flows.read().len()
 }
 
+
+// ======================================================================== new_detailed
+/// every queue gets the capacity its option names: datagram queue = datagram_buffer_size, accept
+/// queue = stream_buffer_size, bind queue = bind_buffer_size; the window advertised is `rwnd`
+#[cfg_attr(kani, kani::proof)]
+#[cfg_attr(kani, kani::stub(catch_unwind, call_through))]
+#[cfg_attr(kani, kani::unwind(9))]
+#[cfg_attr(verif_replay, test)]
+fn m_new_detailed_capacities() {
+    let opts = Options::new().datagram_buffer_size(3).stream_buffer_size(1).bind_buffer_size(2).rwnd(2);
+    let (mux, mut td) = mux_world(opts, [A, C, 0x55, 0x66]);
+    let mut k = 0;
+    let mut accepted = 0;
+    while k < 5 {
+        let d = Datagram { flow_id: k, target_host: Bytes::new(), target_port: 1, data: Bytes::new() };
+        let r = td.task.datagram_tx.try_send(d);
+        if r.is_ok() {
+            accepted += 1;
+        }
+        core::mem::forget(r);
+        k += 1;
+    }
+    assert!(accepted == 3, "C11.buffer.capacity: the datagram receive buffer holds exactly datagram_buffer_size datagrams (a datagram is lost only when THAT buffer is full)");
+    assert!(td.task.rwnd == 2 && mux.rwnd == 2, "C03.options.rwnd");
+    let b = td.task.bnd_request_tx.is_some() && mux.bnd_request_rx.is_some();
+    assert!(b, "C15.options.bind_enabled: a positive bind_buffer_size enables bind requests");
+    core::mem::forget(td);
+}
+
 // ======================================================================== insert_new_flow
 /// id allocation: never 0, never an id in use; the slot is stored under exactly the returned id and
 /// no other entry moves.  Script: 0, an id in use, then an arbitrary value `x`.
@@ -433,7 +462,11 @@ fn m_api_after_connection_end() {
     // the connection task has ended and dropped its ends
     let TaskData { task, mut tx_msg_rx, dropped_flows_rx } = td;
     tx_msg_rx.close();
-    let Task { datagram_tx, con_recv_stream_tx, bnd_request_tx, .. } = task;
+    // SAFETY: each field is read out exactly once and `task` is leaked afterwards (never dropped)
+    let datagram_tx = unsafe { core::ptr::read(&task.datagram_tx) };
+    let con_recv_stream_tx = unsafe { core::ptr::read(&task.con_recv_stream_tx) };
+    let bnd_request_tx = unsafe { core::ptr::read(&task.bnd_request_tx) };
+    core::mem::forget(task);
     drop(datagram_tx);
     drop(con_recv_stream_tx);
     drop(bnd_request_tx);
@@ -654,7 +687,7 @@ fn m_wind_down() {
     let (btx, mut brx) = oneshot::channel::<bool>();
     w.task.flows.write().insert(B, FlowSlot::BindRequested(btx));
     // queued before the end: one Push of A and a Finish of another flow
-    w.task.tx_msg_tx.send(Frame::new_push(A, b"xy").into()).ok();
+    w.task.tx_msg_tx.send(push_frame(A, b"xy").into()).ok();
     w.task.tx_msg_tx.send(Frame::new_finish(0x77).into()).ok();
     let WorldR { task, tx_msg_rx, dropped_rx, con_rx, dgram_rx } = w;
     let p = poll_once(task.wind_down(drain, tx_msg_rx, dropped_rx));
